@@ -5,6 +5,7 @@ import (
 	"fmt"
 	"reflect"
 	"sort"
+	"strings"
 
 	"github.com/kstenerud/go-concise-encoding/ce"
 	"github.com/kstenerud/go-concise-encoding/ce/events"
@@ -63,7 +64,9 @@ type c09Struct struct {
 	E []byte
 }
 
-var c09Strings = []string{"", "a", "hello", "exactly15bytes!!", "a string longer than fifteen bytes", "né", "中文字符串", "x y", "tab\there"}
+var c09Strings = []string{"", "a", "hello", "exactly15bytes!!", "a string longer than fifteen bytes", "né", "中文字符串", "x y", "tab\there",
+	// 63 / 64 / 70 / 130 bytes: from 64 elements on the CBE chunk header takes two bytes, so a cut can fall inside it
+	strings.Repeat("s", 63), strings.Repeat("t", 64), strings.Repeat("0123456789", 7), strings.Repeat("abcdefghijklm", 10)}
 var c09Keys = []string{"A", "B", "C", "D", "E", "k", "key", "other", "a-longer-key-name-than-15", "é", "z9"}
 
 func genC09Int(t *rapid.T) *C09Val {
@@ -81,9 +84,17 @@ func genC09Leaf(t *rapid.T) *C09Val {
 	case 2, 3:
 		return genC09Str(t)
 	case 4:
-		return &C09Val{K: "bytes", B: rapid.SliceOfN(rapid.Byte(), 0, 20).Draw(t, "bytes")}
+		n := rapid.IntRange(0, 20).Draw(t, "bytesn")
+		switch rapid.IntRange(0, 40).Draw(t, "byteslong") {
+		case 0, 1, 2, 3:
+			n = rapid.IntRange(62, 70).Draw(t, "bytesn2") // around the two-byte chunk header
+		}
+		return &C09Val{K: "bytes", B: rapid.SliceOfN(rapid.Byte(), n, n).Draw(t, "bytes")}
 	case 5:
 		n := rapid.IntRange(0, 18).Draw(t, "i16n")
+		if rapid.IntRange(0, 9).Draw(t, "i16long") == 0 {
+			n = rapid.IntRange(62, 70).Draw(t, "i16n2")
+		}
 		return &C09Val{K: "i16s", B: rapid.SliceOfN(rapid.Byte(), 2*n, 2*n).Draw(t, "i16s")}
 	default:
 		if rapid.Bool().Draw(t, "isbool") {
